@@ -5,7 +5,7 @@
 # Remove /tmp/tryseed when the seeding session is over.
 set -u
 patch="$(readlink -f "$1")"; shift
-SC=/tmp/tryseed
+SC=${TRYROOT:-/tmp/tryseed}
 mkdir -p $SC/repo $SC/verif
 rsync -a --delete --exclude target --exclude .git /repo/ $SC/repo/
 ( cd $SC/repo && git apply "$patch" ) || { echo "patch does not apply"; exit 2; }
